@@ -212,6 +212,7 @@ func (m *runtimeContextManager) RequireMem(memAmount uint64) {
 
 //go:noinline
 func (m *runtimeContextManager) requireMem(memAmount uint64) {
+	verifCtx("mem.req", m, nil, memAmount, 0)
 	if m.status != StatusLive {
 		verifCtx("mem.dead", m, nil, memAmount, 0)
 	}
@@ -252,6 +253,7 @@ func (m *runtimeContextManager) ReleaseMem(memAmount uint64) {
 	// TODO: think about what to do when memory is released when unwinding from
 	// a quota exceeded error
 	if m.hardLimits.Memory > 0 {
+		verifCtx("mem.rel", m, nil, memAmount, 0)
 		if memAmount <= m.usedResources.Memory {
 			m.usedResources.Memory -= memAmount
 		} else {
